@@ -1,6 +1,7 @@
 package sym
 
 import (
+	"math"
 	"go/types"
 	"net/textproto"
 	"strings"
@@ -15,7 +16,7 @@ var StubList = []string{
 	"fmt.{Errorf,Sprintf,Sprint,Sprintln}: opaque message; %w operands kept so errors.Is/Unwrap see the chain",
 	"errors.Is: native walk over Is/Unwrap methods (no reflectlite)",
 	"internal/abi.NoEscape, internal/race.*, internal/godebug: identity / no-op",
-	"sync.{Mutex,RWMutex}: lock counters (unlock of unlocked = Go panic); sync.Once: runs the closure once; sequential semantics",
+	"sync.{Mutex,RWMutex}: lock counters (unlock of unlocked = Go panic), TryLock succeeds iff free; sync.Once: runs the closure once; sync.Pool: Get returns the most recently Put object, else New(); sequential semantics",
 	"time.{Now,Since,NewTimer} and time.Time.{Add,Sub,After,Before,Equal,IsZero,Compare}: an instant is one 64-bit nanosecond count",
 	"time.Duration.Milliseconds: executed from SSA (signed division by 1e6)",
 	"math/rand.{New,NewSource,(*Rand).Float64}: arbitrary float in [0,1)",
@@ -189,7 +190,7 @@ func registerStubs(p *Program) {
 			res := ex.InvokeMethod(src, "Read", buf).(Tuple)
 			got := ex.Concretize(res[0].(*Term))
 			if got > 0 {
-				part := SliceVal{Arr: buf.Arr, Off: 0, Len: int(got), Cap: int(got)}
+				part := SliceVal{Arr: buf.Arr, Off: buf.Off, Len: int(got), Cap: int(got), Pre: buf.Pre}
 				if dst.T != nil && dst.T.String() != "io.discard" {
 					wres := ex.InvokeMethod(dst, "Write", part).(Tuple)
 					if e := wres[1].(IfaceVal); e.T != nil {
@@ -384,6 +385,60 @@ func registerSyncStubs(p *Program) {
 		ex.mutexState[o]--
 		return nil
 	})
+	p.stub("(*sync.RWMutex).TryLock", func(ex *Exec, a []Value) Value {
+		o := lockObj(ex, a[0])
+		if ex.mutexState[o] != 0 {
+			return False
+		}
+		ex.mutexState[o] = -1
+		return True
+	})
+	p.stub("(*sync.RWMutex).TryRLock", func(ex *Exec, a []Value) Value {
+		o := lockObj(ex, a[0])
+		if ex.mutexState[o] < 0 {
+			return False
+		}
+		ex.mutexState[o]++
+		return True
+	})
+	// sync.Pool, sequential semantics: Get hands back the most recently Put object (what
+	// the per-P private slot does when no GC intervenes), else New(), else nil
+	poolKey := func(ex *Exec, v Value) string { return "pool:" + showValue(v.(Ptr)) }
+	p.stub("(*sync.Pool).Put", func(ex *Exec, a []Value) Value {
+		if iv, ok := a[1].(IfaceVal); ok && iv.T == nil {
+			return nil
+		}
+		k := poolKey(ex, a[0])
+		l, _ := ex.natState[k].([]Value)
+		ex.natState[k] = append(append([]Value{}, l...), a[1])
+		return nil
+	})
+	p.stub("(*sync.Pool).Get", func(ex *Exec, a []Value) Value {
+		k := poolKey(ex, a[0])
+		if l, _ := ex.natState[k].([]Value); len(l) > 0 {
+			ex.natState[k] = append([]Value{}, l[:len(l)-1]...)
+			return l[len(l)-1]
+		}
+		ptr := a[0].(Ptr)
+		var st *types.Struct
+		if sp := ex.P.Prog.ImportedPackage("sync"); sp != nil {
+			if t := sp.Type("Pool"); t != nil {
+				st, _ = t.Type().Underlying().(*types.Struct)
+			}
+		}
+		if st == nil {
+			ex.internal("sync.Pool type not found")
+		}
+		for i := 0; i < st.NumFields(); i++ {
+			if st.Field(i).Name() == "New" {
+				fn := ex.load(Ptr{Obj: ptr.Obj, Path: append(append([]int{}, ptr.Path...), i)})
+				if c, ok := fn.(*Closure); ok && c != nil {
+					return ex.callValue(ex.curFrame, fn, nil, nil)
+				}
+			}
+		}
+		return IfaceVal{}
+	})
 	p.stub("(*sync.Once).Do", func(ex *Exec, a []Value) Value {
 		ptr := a[0].(Ptr)
 		k := "once:" + showValue(ptr)
@@ -513,10 +568,13 @@ func registerNetStubs(p *Program) {
 		}
 		return Tuple{res[0], IfaceVal{}}
 	})
-	// timers fire as soon as they are armed; the durations they are reset to are recorded
+	// timers fire as soon as they are armed (unless verifTimerHold was called); the durations they are reset to are recorded
 	timerT := p.findType("time", "Timer")
 	timeT := p.findType("time", "Time")
 	fill := func(ex *Exec, ch *ChanVal) {
+		if held, _ := ex.natState["timer.hold"].(bool); held {
+			return // verifTimerHold: from now on armed timers do not fire within the scenario
+		}
 		if len(ch.Buf) == 0 {
 			ch.Buf = append(ch.Buf, Zero(timeT))
 		}
@@ -545,6 +603,12 @@ func registerNetStubs(p *Program) {
 		return Ptr{Obj: ex.newObject(randT, Zero(randT))}
 	})
 	p.stub("(*math/rand.Rand).Float64", func(ex *Exec, a []Value) Value {
+		if ex.params()["RANDEXTREMES"] == 1 {
+			// the draw is one of the two extremes of [0,1) or the midpoint (forked choice)
+			vals := []float64{0, 0.5, math.Nextafter(1, 0)}
+			i := ex.Choose("rand.Float64", len(vals))
+			return F64(vals[i])
+		}
 		v := ex.freshFloat("rand.Float64")
 		ex.recNondet("rand.Float64", "float", 64, v)
 		ex.Assume(And(FBin(OFLe, F64(0), v), FBin(OFLt, v, F64(1))))
